@@ -1,5 +1,5 @@
 // C03: FdEvent on both back-ends (engine H, fork per evaluation, ASan, per-fd record pools de-pooled).
-// usage: harness <config 0..2> <depth> <script_first> <script_last>
+// usage: harness <config 0..4> <depth> <script_first> <script_last>
 #include "hist/hist.h"
 #include <tbox/event/loop.h>
 #include <tbox/event/fd_event.h>
@@ -20,10 +20,13 @@ struct Script { int e, act, tgt; };
 static const int NE = 3;
 struct EvCfg { int d; short mask; bool oneshot; };
 // descriptors: 0,1,2 = read ends of pipes (config 2: descriptor 0 = one end of a socketpair)
-static const EvCfg CFG[3][NE] = {
+static const EvCfg CFG[5][NE] = {
   {{0, FdEvent::kReadEvent, false}, {0, FdEvent::kReadEvent, true}, {1, FdEvent::kReadEvent, false}},
   {{0, FdEvent::kReadEvent, false}, {1, FdEvent::kReadEvent, false}, {1, FdEvent::kReadEvent, true}},
   {{0, (short)(FdEvent::kReadEvent | FdEvent::kWriteEvent), false}, {0, FdEvent::kWriteEvent, true}, {1, FdEvent::kReadEvent, false}},
+  // different masks on one descriptor, the one-shot subscribing to the condition that is NOT always ready:
+  {{0, FdEvent::kWriteEvent, false}, {0, FdEvent::kReadEvent, true}, {1, FdEvent::kReadEvent, false}},
+  {{0, FdEvent::kReadEvent, true}, {0, FdEvent::kWriteEvent, true}, {0, (short)(FdEvent::kReadEvent | FdEvent::kWriteEvent), false}},
 };
 struct Call { int e; short m; };
 struct World {
@@ -64,7 +67,7 @@ static void on_cb(World &w, const Script &sc, int e, short m) {
 static std::string run_engine(const char *eng, int cfg, const Script &sc, const std::vector<Op> &h, World &w) {
   w.loop = Loop::New(eng);
   if (!strcmp(eng, "epoll")) static_cast<EpollLoop *>(w.loop)->fd_shared_data_pool_.keep_number_ = 0; else static_cast<SelectLoop *>(w.loop)->fd_shared_data_pool_.keep_number_ = 0;
-  for (int i = 0; i < 3; i++) { int p[2]; if (cfg == 2 && i == 0) { socketpair(AF_UNIX, SOCK_STREAM | SOCK_NONBLOCK, 0, p); w.rd[i] = p[0]; w.wr[i] = p[1]; } else { pipe2(p, O_NONBLOCK); w.rd[i] = p[0]; w.wr[i] = p[1]; } }
+  for (int i = 0; i < 3; i++) { int p[2]; if (cfg >= 2 && i == 0) { socketpair(AF_UNIX, SOCK_STREAM | SOCK_NONBLOCK, 0, p); w.rd[i] = p[0]; w.wr[i] = p[1]; } else { pipe2(p, O_NONBLOCK); w.rd[i] = p[0]; w.wr[i] = p[1]; } }
   for (int e = 0; e < NE; e++) make_event(w, sc, e, CFG[cfg][e].d, CFG[cfg][e].mask, CFG[cfg][e].oneshot);
   w.alive[NE] = false; w.ev[NE] = nullptr; w.en[NE] = false;
   try {
